@@ -565,7 +565,7 @@ class _Exec(object):
                 st = self.effect_prepass([s.value], st)
             elif isinstance(s, ast.AugAssign):
                 st = self.effect_prepass([s.value], st)
-        if isinstance(s, (ast.Expr, ast.Assign, ast.AugAssign, ast.AnnAssign, ast.Return, ast.Raise)):
+        if isinstance(s, (ast.Expr, ast.Assign, ast.AugAssign, ast.AnnAssign, ast.Return, ast.Raise, ast.Delete)):
             # every simple statement leaves a marker carrying the number of conditions established before it
             st = Path(st.conds, st.events + (('stmt', len(st.conds), getattr(s, '_orig', s)),), st.env, None)
         return self._stmt(s, st)
@@ -650,7 +650,10 @@ class _Exec(object):
             env = st.env
             # x.append(y) / x.extend(y) etc. change x: later reads of an alias would be stale -> keep text, note event
             return [Path(st.conds, st.events + tuple(evs), env, None)]
-        if isinstance(s, (ast.Pass, ast.Global, ast.Nonlocal, ast.Import, ast.ImportFrom, ast.Assert, ast.Delete)):
+        if isinstance(s, ast.Delete):
+            evs = tuple(('store', 'del %s' % ctext(subst(t, st.env)), s, None, len(st.conds)) for t in s.targets)
+            return [Path(st.conds, st.events + evs, st.env, None)]
+        if isinstance(s, (ast.Pass, ast.Global, ast.Nonlocal, ast.Import, ast.ImportFrom, ast.Assert)):
             return [st]
         if isinstance(s, (ast.Assign, ast.AnnAssign)):
             if s.value is None:
